@@ -32,6 +32,16 @@ DEFAULT_VALIDATE_UNTIL = -1
 _log = logging.getLogger("cutplace")
 
 
+def _ensure_can_be_read(path):
+    """
+    Raise an :py:exc:`OSError` in case the file ``path`` cannot be opened for
+    reading, for example because it does not exist or is a folder. Some
+    readers, in particular for ODS, report this as broken data otherwise.
+    """
+    with open(path, "rb"):
+        pass
+
+
 class CutplaceApp(object):
     """
     Command line application to validate CID's and data.
@@ -141,6 +151,7 @@ class CutplaceApp(object):
         assert cid_path is not None
         new_cid = interface.Cid()
         _log.info('read CID from "%s"', cid_path)
+        _ensure_can_be_read(cid_path)
         cid_rows = rowio.auto_rows(cid_path)
         new_cid.read(cid_path, cid_rows)
         self.cid = new_cid
@@ -194,6 +205,7 @@ def process(argv=None):
     elif cutplace_app.data_paths:
         for data_path in cutplace_app.data_paths:
             try:
+                _ensure_can_be_read(data_path)
                 cutplace_app.validate(data_path)
             except (EnvironmentError, OSError) as error:
                 raise EnvironmentError("cannot read data file %r: %s" % (data_path, error))
